@@ -427,6 +427,9 @@ func evalGen(r *rand.Rand, tier string, n int) []*wire.Case {
 	add("d-number-spellings", "print(010); print(08); print(0100); print(-012); print(007); print(010 + 1); print(08 / 2); print(010.5); print(9223372036854775808); print(99999999999999999999 + 1);")
 	add("d-number-text", "print(1000000.0); print(1000.0 * 1000); print(0.00001); print(1.0 / 3000000); print(123456789.5 * 1000000000000.0); print(1000000 * 1000000); print(21000000.0 / 2); print(0.0001); print(0.00009);")
 	add("d-print-values", "print(print); print(rand); print(fn () { return 1; }); fn f(a) { return a; } print(f); print(attack(First)); print(skill(LowestHP)); print(ult(LowestHPRatio)); print(null); print(\"a b\"); let g = f; print(g); print(type); print(f(print));")
+	add("d-switch-continue", "let i = 0; while i < 3 { i = i + 1; switch i { case 1: print(10); continue; case 2: print(20); default: print(99); } print(i); }",
+		"let i = 0; while i < 4 { i = i + 1; switch i { case 2: continue; case 3: fallthrough; case 9: print(30); break; default: print(99); } print(i); }",
+		"for let i = 0; i < 3; i = i + 1 { switch { case i == 1: continue; default: print(7); } print(i); }", "fn f(x) { switch x { case 1: continue; default: return 5; } return 6; } print(f(1)); print(f(2));")
 	add("d-compare", "print(1 < 2); print(2 <= 2); print(3 > 4); print(1 == 1.0); print(1 != 2); print(1 <> 1); print(2 && 0); print(0 || 0.0); print(0 || \"s\" == 1);")
 	add("d-errors", "print(1 / 0);", "print(1.0 / 0);", "print(\"a\" + 1);", "print(nope);", "fn f(a) { return a; } print(f());", "let a = 1; let a = 2;", "print(5 / (2 - 2));", "print(type(1)); print(type(\"s\")); print(type(null)); print(type([1])); print(type(print)); print(type(fn(){ return 1; }));")
 	add("d-fn-args", "let a = 1; let b = 2; fn second(b, a) { return a; } print(second(a, b)); print(second(b, a));",
